@@ -84,8 +84,9 @@ mutual
         t_A ++ (snapA recv ++ (t_arrow ++ (t_F ++ (f.toList ++ (t_comma ++ (t_AL ++ (snapArgs args ++ (t_close ++ (t_close ++ t_close)))))))))
     | .member recv n => t_A ++ (snapA recv ++ (t_MV ++ (n.toList ++ t_close)))
     | .sel recv idx =>
-        -- the code writes the receiver twice (4th `else if` branch and the selector branch)
-        t_A ++ (snapA recv ++ (snapA recv ++ (t_selarrow ++ (t_MAS ++ (snapE idx ++ (t_close ++ t_close))))))
+        -- (the code used to write the receiver twice — 4th `else if` branch and the selector branch — which doubled the
+        --  snapshot at every level of a chained selector; fixed in /repo d4abfaa)
+        t_A ++ (snapA recv ++ (t_selarrow ++ (t_MAS ++ (snapE idx ++ (t_close ++ t_close)))))
     | .neg a => t_A ++ (t_bang ++ (snapA a ++ t_close))
   def snapV : Var → Snap
     | .root n => t_VN ++ (n.toList ++ t_close)
